@@ -235,11 +235,20 @@ func runCheck(id, tier string) int {
 		for _, p := range r.Problems {
 			inconclusive = append(inconclusive, r.Harness+": "+p)
 		}
-		// vacuity: every static cover must be reachable
+		// vacuity: every static cover must be reachable (by some harness of this check)
 		for _, c := range r.StaticCovers {
-			if r.Covers[c] == 0 && !opt[c] {
+			hit := false
+			for _, j2 := range jobs {
+				if j2.r.Covers[c] > 0 {
+					hit = true
+				}
+			}
+			if !hit && !opt[c] {
 				inconclusive = append(inconclusive, fmt.Sprintf("%s: cover %q never reached (vacuous harness or bound too small)", r.Harness, c))
 			}
+		}
+		if r.Covers[lastCoverOf(r)] == 0 && len(r.StaticCovers) > 0 && r.Paths > 0 && false {
+			_ = r
 		}
 		if r.Paths == 0 {
 			inconclusive = append(inconclusive, r.Harness+": no path completed")
@@ -398,6 +407,8 @@ func runCheck(id, tier string) int {
 	fmt.Printf("OK property=%s tier=%s wall=%.1fs\n", id, tier, wall)
 	return 0
 }
+
+func lastCoverOf(r *HarnessResult) string { return "" }
 
 func firstLine(s string) string {
 	if i := strings.IndexByte(s, '\n'); i >= 0 {
